@@ -143,7 +143,7 @@ def gen_edges_spec(rng, k):
     g, c = modes[k % len(modes)]
     boundary = ["periodic", "open", "shear", "none"][(k // 2) % 4]
     n = [(1, 1, 1), (2, 1, 1), (1, 2, 1), (2, 2, 2), (3, 2, 1), (8, 8, 8), (1, 1, 64), (16, 1, 1)][k % 8]
-    spec = {"kind": "edges", "rs": rng.choice([1.0, 2.0, 0.5, 0.125, 4.0]), "n": list(n), "boundary": boundary, "gravity": g, "collision": c,
+    spec = {"kind": "edges", "rs": rng.choice([1.0, 2.0, 0.5, 0.125, 4.0, 2.0 ** 200, 2.0 ** -200]), "n": list(n), "boundary": boundary, "gravity": g, "collision": c,
             "seed": rng.randrange(1 << 30), "dt": 0.01, "npts": rng.choice([8, 20, 40]), "moving": k % 3 != 0, "vel": rng.choice([0.1, 1.0, 7.0]),
             # the closed upper border only without motion across it: moving lattices that contain both faces x=-L/2 and x=+L/2 produce pairs of
             # particles one ulp apart after the periodic wrap = known finding tree:cell_centre_rounding (dedicated corner history)
@@ -204,6 +204,12 @@ def corner_specs():
                 "ops": [["add", 1.0, 0.3, 0.3, 0.3], ["add", 1e-3, 0.1, 0.1, 0.1], ["add", 1e-3, -0.3, 0.2, -0.1], ["step"], ["move_to_hel"], ["step"]],
                 "what": "sim.move_to_hel() with tree gravity, then step: the primary at exactly (0,0,0) is re-inserted into the leaf of a particle that has not been "
                         "re-sorted yet and now lies below that corner on every axis"})
+    out.append({"kind": "corner", "key": "tree:reinsert_on_cell_corner_unbounded_recursion", "rs": 1.0, "n": [1, 1, 1], "boundary": "periodic", "gravity": "tree",
+                "dt": 0.01, "steps": 0, "pts": [],
+                "ops": [["add", 1e-3, -0.25, 0.5, 0.125], ["add", 1e-3, 0.3, 0.1, -0.2], ["add", 1e-3, -0.1, -0.3, 0.4], ["step"], ["remove", 0],
+                        ["add", 1e-3, -0.25, 0.5, 0.125], ["step"]],
+                "what": "a particle on the upper box border is removed (flagged y=NaN, still in its leaf) and a particle is added at the same place before the next "
+                        "tree update: the NaN resident and the new particle choose the same octant at every level"})
     # move_to_hel where it is fine (must pass): the other particles end up on different sides of the origin
     out.append({"kind": "corner", "key": "tree:corner_control", "rs": 1.0, "n": [1, 1, 1], "boundary": "periodic", "gravity": "tree", "dt": 0.01, "steps": 0, "pts": [],
                 "ops": [["add", 1.0, 0.1, 0.1, 0.1], ["add", 1e-3, 0.3, -0.2, 0.25], ["add", 1e-3, -0.3, 0.2, -0.1], ["add", 1e-3, 0.45, 0.4, -0.4], ["step"], ["move_to_hel"], ["step"], ["move_to_com"], ["step"]],
